@@ -628,9 +628,10 @@ def check_template_vars(r6, name, ast, keys, ktypes, ser_fields, elem_struct, fn
             sname = elem_struct(flds[p])
         return True, sname
 
-    def walk_nodes(nodes, scope, name=name, depth=0):
+    def walk_nodes(nodes, scope, name=name, depth=0, share=False):
         nonlocal n
-        scope = dict(scope)
+        if not share:
+            scope = dict(scope)     # (the branches of an `if` open no scope in Tera: a `set` there is visible after it)
         for node in nodes:
             k = node.get("k")
             exprs = []
@@ -669,9 +670,9 @@ def check_template_vars(r6, name, ast, keys, ktypes, ser_fields, elem_struct, fn
                 walk_nodes(node["body"], inner, name, depth)
             elif k == "if":
                 for c in node["conds"]:
-                    walk_nodes(c["body"], scope, name, depth)
+                    walk_nodes(c["body"], scope, name, depth, share=True)
                 if node.get("else"):
-                    walk_nodes(node["else"], scope, name, depth)
+                    walk_nodes(node["else"], scope, name, depth, share=True)
             elif k == "include":
                 # Tera includes see the including scope (loop and set variables included)
                 sub = None
